@@ -407,8 +407,18 @@ func concKinds() []concKind {
 					return hx(c.ScalarBaseMult(&k).MarshalBinary())
 				},
 				func() string { var c goldilocks.Curve; o := c.Order(); o.Neg(); return fmt.Sprintf("%x", o[:]) },
-				func() string { g := bls12381.G1Generator(); g.Neg(); g.Double(); return fmt.Sprintf("%x", g.BytesCompressed()) },
-				func() string { g := bls12381.G2Generator(); g.Neg(); g.Double(); return fmt.Sprintf("%x", g.BytesCompressed()) },
+				func() string {
+					g := bls12381.G1Generator()
+					g.Neg()
+					g.Double()
+					return fmt.Sprintf("%x", g.BytesCompressed())
+				},
+				func() string {
+					g := bls12381.G2Generator()
+					g.Neg()
+					g.Double()
+					return fmt.Sprintf("%x", g.BytesCompressed())
+				},
 				func() string { o := bls12381.Order(); o[0] ^= 0xff; return fmt.Sprintf("%x", bls12381.Order()) },
 				func() string {
 					var p fourq.Point
@@ -444,6 +454,7 @@ func concKinds() []concKind {
 		}
 		return concPlan{ops: mk(), want: wants(mk())}
 	}})
+	ks = append(ks, eccKinds()...)
 	return ks
 }
 
@@ -506,7 +517,7 @@ func TestC11Conc(t *testing.T) {
 					defer wg.Done()
 					<-start
 					for r := 0; r < rep; r++ {
-						oi := (g + r) % len(plan.ops)
+						oi := (g + r + int(trial%97)) % len(plan.ops)
 						got[g] = append(got[g], plan.ops[oi]())
 					}
 				}()
@@ -517,7 +528,7 @@ func TestC11Conc(t *testing.T) {
 			bad := false
 			for g := 0; g < n && !bad; g++ {
 				for r := 0; r < rep; r++ {
-					oi := (g + r) % len(plan.ops)
+					oi := (g + r + int(trial%97)) % len(plan.ops)
 					if got[g][r] != plan.want[oi] {
 						d := ""
 						if oi < len(plan.desc) {
